@@ -13,6 +13,9 @@ def val(ctx, x):
             return complex(x['c'][0], x['c'][1])
         if 'tuple' in x and len(x) == 1:
             return tuple(val(ctx, i) for i in x['tuple'])
+        if 'fn' in x or 'ctor' in x or 'npf' in x:
+            from sim.ops.priors import build_expr
+            return build_expr(ctx, x)
         if 'np' in x or 'arr' in x or 'f' in x:
             return lit(x)
         if 'dict' in x and len(x) == 1:
